@@ -56,7 +56,13 @@ func ParseMediaType(s string) (MediaType, error) {
 		return MediaType{}, errors.New("invalid media type")
 	}
 
-	return MediaType{values[0], values[1], suffix}, nil
+	mediaType := MediaType{values[0], values[1], suffix}
+	if mediaType == (MediaType{}) {
+		// "/" would be accepted here but re-encodes as "", which is rejected
+		return MediaType{}, errors.New("invalid media type")
+	}
+
+	return mediaType, nil
 }
 
 func (m MediaType) MarshalText() ([]byte, error) {
